@@ -91,10 +91,15 @@ RESULT_TTL_LIMIT = [("fifo", "thread", None), ("lfu", "thread", None), ("lru", "
                     ("lru", "thread", 1), ("fifo", "async", 2), ("tlru", "global", None), ("random", "thread", None)]
 
 
+# Result functions with max_memory = "1KB" and NOTHING else (no ttl / limit / predicates), sync global and async: every computed
+# Ok fits, so once a caller has returned its result must be served — also when many callers store at once (hammer phase HK; C09)
+RESULT_MEM = [("fifo", "async", 3), ("lru", "global", 3), ("lfu", "async", 4), ("random", "global", 4)]
+
+
 def gen(seed, n):
     """the first 48 functions are random (seeded); then the 4 fixed ones (plain, F7 witnesses); then the systematic
     block: flavour x policy with limit + invalidate_on, and flavour x policy with max_memory + cache_if"""
-    base_n = n - len(SYSTEMATIC) - len(EXTRA) - len(PLAIN) - len(PLAIN_RESULT) - len(TTL_LIMIT) - len(RESULT_TTL_LIMIT)
+    base_n = n - len(SYSTEMATIC) - len(EXTRA) - len(PLAIN) - len(PLAIN_RESULT) - len(TTL_LIMIT) - len(RESULT_TTL_LIMIT) - len(RESULT_MEM)
     fns = gen_random(seed, base_n)
     rng = random.Random(seed * 7 + 3)
     for k, sy in enumerate(SYSTEMATIC):
@@ -136,6 +141,11 @@ def gen(seed, n):
                         ttl=1 + k % 2, fw=FWS[2] if pol == "tlru" else None, scope=("thread" if fl == "thread" else None),
                         sig=SIGS[1 + k % 2], ret=RETS[3 + k % 2], name=None, tags=[], events=[], deps=[], cache_if=False, inv_on=False,
                         thread_scope=(fl == "thread")))
+    for k, (pol, fl, r) in enumerate(RESULT_MEM):
+        i = base_n + len(SYSTEMATIC) + len(EXTRA) + len(PLAIN) + len(PLAIN_RESULT) + len(TTL_LIMIT) + len(RESULT_TTL_LIMIT) + k
+        fns.append(dict(i=i, real_result=False, is_async=(fl == "async"), policy=pol, limit=None, maxmem=MAXMEM[2], ttl=None, fw=None,
+                        scope=None, sig=SIGS[1 + k % 2], ret=RETS[r], name=None, tags=[], events=[], deps=[],
+                        cache_if=False, inv_on=False, thread_scope=False))
     return fns
 
 
